@@ -84,23 +84,33 @@ type inst struct {
 	keepUntil int // callback number that returns keep=false (-1: never)
 	errAt     int // callback number that returns an error (-1: never)
 	zeroAt    int // interval(n) returns 0 for this n>=1 (-1: never)
-	slow      int
-	immortal  bool
-	fate      string // what happened to the predecessor under the same id
+	// zeroPrepFrom: from call number n>=zeroPrepFrom on, the interval function
+	// answers 0 when it is asked for the same n a second time, i.e. by the
+	// loop's preparation (NewTimer / run() asked first and got >= 1): an
+	// interval function which is not a pure function of its argument (-1: never)
+	zeroPrepFrom int
+	slow         int
+	immortal     bool
+	fate         string // what happened to the predecessor under the same id
 
 	stopReturned atomic.Bool
 	sawStop      atomic.Bool
+	sawRemoved   atomic.Bool // the instance's own code has seen that its whenRemoved hook ran
 	nstarts      atomic.Int64
 
 	mu         sync.Mutex
 	sawWhere   string
+	remWhere   string
 	starts     []time.Time
 	ivlCalls   map[uint64]int
 	inCallback bool
 
 	// directed schedules
 	ivlHook func(n uint64, nth int)
-	cbHook  func(k int) (bool, error, bool)
+	// ivlOverride: the interval function consults outside state (self-ending
+	// schedules); ok=false: the plain value
+	ivlOverride func(n uint64, nth int) (time.Duration, bool)
+	cbHook      func(k int) (bool, error, bool)
 
 	// whenRemoved hook given to NewSimpleTimer
 	removedCalls atomic.Int64
@@ -108,9 +118,9 @@ type inst struct {
 	removedFn    func()
 
 	// concurrent phase
-	rearmAt          int // callback number that registers a new instance under the same id (-1: never)
-	callClk, retClk  int64
-	added            bool
+	rearmAt         int // callback number that registers a new instance under the same id (-1: never)
+	callClk, retClk int64
+	added           bool
 }
 
 // whenRemoved is what SimpleTimers calls when it removes this timer.
@@ -144,6 +154,17 @@ func (x *inst) latch(where string) {
 		x.mu.Unlock()
 		x.sawStop.Store(true)
 	}
+	// whenRemoved runs after the timer's context was cancelled, inside the
+	// removal. Code of the instance that sees the hook has run is ordered after
+	// that cancellation; run() checks the context before every callback.
+	if x.removedCalls.Load() > 0 && !x.sawRemoved.Load() {
+		x.mu.Lock()
+		if x.remWhere == "" {
+			x.remWhere = where
+		}
+		x.mu.Unlock()
+		x.sawRemoved.Store(true)
+	}
 }
 
 func (x *inst) interval(n uint64) time.Duration {
@@ -161,6 +182,15 @@ func (x *inst) interval(n uint64) time.Duration {
 	}
 	x.latch(where)
 	x.g.r.Count("interval_calls", 1)
+	if x.zeroPrepFrom >= 0 && nth >= 1 && int(n) >= x.zeroPrepFrom {
+		x.g.r.Count("interval_below_1_answers_at_preparation", 1)
+		return 0
+	}
+	if x.ivlOverride != nil {
+		if d, ok := x.ivlOverride(n, nth); ok {
+			return d
+		}
+	}
 	return x.ivl(n)
 }
 
@@ -176,8 +206,18 @@ func (x *inst) callback(ctx context.Context, _ uint64) (bool, error) {
 		r.Violation("a:callback-started-after-stop-returned:stop-seen-at="+where,
 			fmt.Sprintf("instance %d of id %q: the stop call covering it had returned (seen by the instance's own %s), yet its callback was started afterwards", x.n, x.id, where), w)
 		r.Count("starts_after_stop_returned", 1)
+	} else if x.sawRemoved.Load() {
+		x.mu.Lock()
+		where := x.remWhere
+		x.mu.Unlock()
+		r.Violation("a:callback-started-after-own-whenRemoved-hook-ran:seen-at="+where,
+			fmt.Sprintf("instance %d of id %q: it was removed (its whenRemoved hook had run, seen by the instance's own %s), yet its callback was started afterwards", x.n, x.id, where), w)
+		r.Count("starts_after_own_removal", 1)
 	} else if x.stopReturned.Load() {
 		r.Count("starts_possibly_concurrent_with_stop_not_judged", 1)
+		x.latch("previous-callback-start")
+	} else if x.removedCalls.Load() > 0 {
+		r.Count("starts_possibly_concurrent_with_removal_not_judged", 1)
 		x.latch("previous-callback-start")
 	}
 	if ctx.Err() != nil {
@@ -236,7 +276,7 @@ func (g *rig) newInst(id util.TimerID) *inst {
 	g.ninst++
 	n := g.ninst
 	g.mu.Unlock()
-	return &inst{g: g, n: n, id: id, base: time.Millisecond, keepUntil: -1, errAt: -1, zeroAt: -1, rearmAt: -1, immortal: true, ivlCalls: map[uint64]int{}}
+	return &inst{g: g, n: n, id: id, base: time.Millisecond, keepUntil: -1, errAt: -1, zeroAt: -1, zeroPrepFrom: -1, rearmAt: -1, immortal: true, ivlCalls: map[uint64]int{}}
 }
 
 func (g *rig) register(x *inst) (bool, error) {
@@ -398,13 +438,15 @@ func randomCase(r *vlib.Run, idx int) {
 					x.step = time.Millisecond
 				}
 				x.slow = []int{0, 0, 0, 1, 2}[rng.Intn(5)]
-				switch rng.Intn(6) {
+				switch rng.Intn(7) {
 				case 0:
 					x.keepUntil, x.immortal = rng.Intn(3), false
 				case 1:
 					x.errAt, x.immortal = rng.Intn(3), false
 				case 2:
 					x.zeroAt, x.immortal = 1+rng.Intn(3), false
+				case 3:
+					x.zeroPrepFrom, x.immortal = rng.Intn(3), false
 				}
 				x.fate = lastFate[id]
 				if prev := reg[id]; prev != nil {
@@ -867,11 +909,14 @@ func directed(r *vlib.Run, idx int, hold string, action string, size uint64) {
 func TestC34(t *testing.T) {
 	r := vlib.Start(t, "C34", vlib.LevelExploration)
 	defer r.Finish()
-	r.SetRule("case = one SimpleTimers daemon (resolution 1ms, map size 1..8) driven by one controller: 200-2000 seeded steps of New (intervals 1-5ms(+0..2ms by call number), callbacks instant/0.2ms/1.5ms, some instances finish by keep=false / error / interval 0), StopTimers / StopOthers / StopAllTimers over 2-6 reused ids, membership probes, pauses 0-1.5ms; then a closing phase registering a successor under every id right after StopAllTimers. Plus concurrent cases: 20-60 rounds in which a second controller registers under 1-3 ids and callbacks re-register their own id while the first controller runs StopTimers/StopOthers/StopAllTimers over them, judged at the quiescent end of each round. Plus directed schedules that hold an instance inside run() (in the interval function called between the stopped-check and the callback, or inside the callback) while the controller stops or replaces it and registers a successor under the same id. distinct = hash of the observed order of register/stop/callback-start events; non-trivial = every case (ids are always reused)")
+	r.SetRule("case = one SimpleTimers daemon (resolution 1ms, map size 1..8) driven by one controller: 200-2000 seeded steps of New (intervals 1-5ms(+0..2ms by call number), callbacks instant/0.2ms/1.5ms, some instances finish by keep=false / error / interval 0 for a call number / an interval function that answers 0 only when the loop's preparation asks again), StopTimers / StopOthers / StopAllTimers over 2-6 reused ids, membership probes, pauses 0-1.5ms; then a closing phase registering a successor under every id right after StopAllTimers. Plus concurrent cases: 20-60 rounds in which a second controller registers under 1-3 ids and callbacks re-register their own id while the first controller runs StopTimers/StopOthers/StopAllTimers over them, judged at the quiescent end of each round. Plus directed schedules that hold an instance inside run() (in the interval function called between the stopped-check and the callback, or inside the callback) while the controller stops or replaces it and registers a successor under the same id. Plus self-ending cases (all 32 combinations, 3 (quick) / 40 (thorough) seeded repetitions each over map sizes 1/16/4/random 1-64 and 4-10 (4-64) always-due bystander timers (interval 1-2ms) that keep the loop walking): a predecessor ends on its own by {interval function consulting outside state answers 0 or a negative duration at its first preparation before any callback | the same at a later preparation after 1-3 callbacks | callback error | callback keep=false} x a successor registered under the same id {before the end | concurrently with the end: predecessor held at its end, for the interval-function ways inside the loop's traverse, until New was called by another goroutine | while the loop is held by a channel handshake inside the preparation of the next other timer it walks, loop and predecessor released in a seeded order | right after the end was signalled} x {NewTimer with whenRemoved hook | New}; nobody ever stops the successor or the bystanders. distinct = hash of the observed order of register/stop/callback-start events; non-trivial = every case (ids are always reused)")
 	r.Assume("clause (a) is judged by happens-before: a callback start is a violation only if the instance's own earlier code had already seen that the covering stop call returned; starts that may be concurrent with the stop call are counted as starts_possibly_concurrent_with_stop_not_judged")
 	r.Assume("clause (c) uses a one-sided bound: time from just before New (or from the previous callback start) to the callback start must be at least the interval; machine load can only lengthen it")
 	r.Assume("in the single-controller cases one goroutine issues all New/Stop* calls, so the controller knows exactly which instance a stop covered; clause (a) is judged only there")
 	r.Assume("in the concurrent cases (second controller and callbacks re-arming their own id while the first controller stops it) a registration concurrent with a stop covering its id may or may not survive; judged are only: a registration no stop could have covered and nothing replaced must be listed, and a registration that nothing replaced and that is gone must have had its own whenRemoved hook called (a removal runs the hook of the timer it removes before it returns)")
+
+	r.Assume("self-ending cases: nothing stops the successor or the bystanders, nothing is registered over them and they cannot end by themselves, so whatever order the code took: until the harness stops the daemon their whenRemoved hook must not have run and they must be listed (definite), and they must go on firing (successor 3 more callbacks, bystanders 1, within 20s, else inconclusive). Whether the successor's New landed inside the very tick in which the predecessor ended is not observable from outside and is only counted (New returned while the loop was held / was pending on the map lock when the loop was released / no bystander callback had started between the end and the hold)")
+	r.Assume("a callback start of an instance is a violation also if the instance's own earlier code had already seen that its whenRemoved hook ran (the hook runs after the timer's context was cancelled and run() checks the context before each callback); starts that may be concurrent with the removal are counted, not judged")
 
 	// directed schedules (deterministic)
 	di := 0
@@ -890,6 +935,8 @@ func TestC34(t *testing.T) {
 	vlib.Parallel(n, 8, func(i int) { randomCase(r, i) })
 	nc := r.N(64, 1000)
 	vlib.Parallel(nc, 8, func(i int) { concurrentCase(r, i) })
+
+	selfEndCases(r)
 
 	if r.Counter("callback_starts") == 0 || r.Counter("timers_stopped") == 0 {
 		r.Inconclusive("no callback starts or no stops observed")
